@@ -454,6 +454,10 @@ var (
 	reNoUpper    = mustRe(`[^A-Z]*`)
 	reLowerSafe  = mustRe(`[^A-Z\x80-\xff]*`)
 	reAscii      = mustRe(`[\x00-\x7f].*`)
+	reStringTok  = mustRe("\"([^\"\\\\\\n]|\\\\.)*\"|`[^`]*`")
+	reHasDotOrExp  = mustRe(`.*[.e].*`)
+	reSignedDigits = mustRe(`-?[0-9]+`)
+	reDecimalLit   = mustRe(`0|[1-9][0-9]*`)
 )
 
 func mustRe(s string) *Re {
@@ -478,7 +482,14 @@ func ufAxioms(u *Term) []*Term {
 			mkEq(mkUF("unquote", SStr, u), s),
 		}
 	case "goquoterune":
-		return []*Term{mkInRe(u, reQuotedRune)}
+		r := u.Args[0]
+		valid := mkAnd(mkLe(mkInt(0), r), mkLe(r, mkInt(0x10ffff)), mkOr(mkLt(r, mkInt(0xd800)), mkLt(mkInt(0xdfff), r)))
+		return []*Term{mkInRe(u, reQuotedRune),
+			// a quoted valid rune denotes that rune (strconv contract, trusted)
+			mkImplies(valid, mkEq(mkUF("runelitval", SInt, u), r))}
+	case "intlitval":
+		t := u.Args[0]
+		return []*Term{mkImplies(mkInRe(t, reDecimalLit), mkEq(u, mkApp("str.to_int", SInt, t)))}
 	case "canbq":
 		return []*Term{mkImplies(u, mkInRe(u.Args[0], reCanBQ))}
 	case "gohex":
